@@ -192,41 +192,64 @@ func (s *Srv) Start(cfg SrvCfg) error {
 	if err := s.S.Router(s.Mux); err != nil {
 		return err
 	}
-	addr := cfg.Addr
-	if addr == "" {
-		addr = fmt.Sprintf("127.0.0.1:%d", freePort())
-	}
-	s.Addr = addr
 	var ropts []gldap.Option
 	if cfg.TLS != nil {
 		ropts = append(ropts, gldap.WithTLSConfig(cfg.TLS))
 	}
-	go func() {
-		s.runErr = s.S.Run(addr, ropts...)
-		s.runRet.Store(nextSeq())
-		close(s.runDone)
-	}()
-	deadline := time.Now().Add(20 * time.Second)
-	for {
-		select {
-		case <-s.runDone:
-			return fmt.Errorf("Run returned early: %v", s.runErr)
-		default:
+	// the harness picks a free port by probing; between the probe and Run's own bind somebody else (another
+	// harness goroutine, another process) may take it: that is the harness's problem, so try another port
+	for attempt := 0; ; attempt++ {
+		addr := cfg.Addr
+		if addr == "" {
+			addr = fmt.Sprintf("127.0.0.1:%d", freePort())
 		}
-		// Ready() is used (not a probe dial) so that the harness itself
-		// consumes no connection ID; a failed listen is caught via runDone.
-		if s.S.Ready() {
+		s.Addr = addr
+		early := make(chan error, 1)
+		started := make(chan struct{})
+		go func() {
+			err := s.S.Run(addr, ropts...)
 			select {
-			case <-s.runDone:
-				return fmt.Errorf("Run returned early: %v", s.runErr)
-			case <-time.After(200 * time.Microsecond):
+			case <-started:
+				s.runErr = err
+				s.runRet.Store(nextSeq())
+				close(s.runDone)
+			default:
+				early <- err
 			}
-			return nil
+		}()
+		deadline := time.Now().Add(20 * time.Second)
+		for {
+			select {
+			case err := <-early:
+				if cfg.Addr == "" && attempt < 20 && err != nil && strings.Contains(err.Error(), "address already in use") {
+					goto retry
+				}
+				s.runErr = err
+				close(s.runDone)
+				return fmt.Errorf("Run returned early: %v", err)
+			default:
+			}
+			// Ready() is used (not a probe dial) so that the harness itself
+			// consumes no connection ID; a failed listen is caught via 'early'.
+			if s.S.Ready() {
+				close(started)
+				// Run may have returned between the Ready() poll and close(started)
+				select {
+				case err := <-early:
+					s.runErr = err
+					s.runRet.Store(nextSeq())
+					close(s.runDone)
+					return fmt.Errorf("Run returned early: %v", err)
+				case <-time.After(200 * time.Microsecond):
+				}
+				return nil
+			}
+			if time.Now().After(deadline) {
+				return fmt.Errorf("server at %s not ready", addr)
+			}
+			time.Sleep(100 * time.Microsecond)
 		}
-		if time.Now().After(deadline) {
-			return fmt.Errorf("server at %s not ready", addr)
-		}
-		time.Sleep(100 * time.Microsecond)
+	retry:
 	}
 }
 
